@@ -12,7 +12,7 @@ def budget(prop, tier):
     if prop == "C15":
         return {"runs": 3000 if tier == "quick" else 200000, "chunk": 25,
                 "wall": 200 if tier == "quick" else 3300, "hang": 400}
-    return {"runs": 2000 if tier == "quick" else 100000, "chunk": 20,
+    return {"runs": 4000 if tier == "quick" else 100000, "chunk": 20,
             "wall": 200 if tier == "quick" else 3300, "hang": 400}
 
 
